@@ -1507,7 +1507,9 @@ def search_rdkit(ck):
 
 SENS = [('gen_queryparse', 'chython/files/daylight/tokenize.py', None, '_query_parse'),
         ('gen_queryeq', 'chython/periodictable/base/query.py', ('QueryElement', 'AnyElement', 'ListElement', 'AnyMetal'), '__eq__'),
-        ('gen_labels', 'chython/containers/molecule.py', ('MoleculeContainer',), 'calc_labels')]
+        ('gen_labels', 'chython/containers/molecule.py', ('MoleculeContainer',), 'calc_labels'),
+        ('gen_qbondeq', 'chython/containers/bonds.py', ('QueryBond',), '__eq__'),
+        ('gen_fromatom', 'chython/periodictable/base/query.py', ('QueryElement',), 'from_atom')]
 
 
 def _mutants(fn, region=None, skip_lines=()):
@@ -1517,6 +1519,8 @@ def _mutants(fn, region=None, skip_lines=()):
     def inside(n):
         return (region is None or (region[0] <= getattr(n, 'lineno', 0) <= region[1])) and getattr(n, 'lineno', 0) not in skip_lines
     raise_consts = {id(c) for r in ast.walk(fn) if isinstance(r, ast.Raise) for c in ast.walk(r) if isinstance(c, ast.Constant)}
+    notes = [x.annotation for x in fn.args.args + fn.args.kwonlyargs if x.annotation is not None] + ([fn.returns] if fn.returns is not None else [])
+    raise_consts |= {id(c) for r in notes for c in ast.walk(r) if isinstance(c, ast.Constant)}      # type annotations
     doc = fn.body[0].value if fn.body and isinstance(fn.body[0], ast.Expr) and isinstance(fn.body[0].value, ast.Constant) else None
     for parent in ast.walk(fn):
         for field in ('body', 'orelse'):
@@ -1576,7 +1580,7 @@ def translator_sensitivity(ck):
                 if classes is None and isinstance(node, ast.FunctionDef) and node.name == fname:
                     fns.append(node)
                 elif classes and isinstance(node, ast.ClassDef) and node.name in classes:
-                    fns += [f for f in node.body if isinstance(f, ast.FunctionDef) and f.name == fname and not f.decorator_list]
+                    fns += [f for f in node.body if isinstance(f, ast.FunctionDef) and f.name == fname and (not f.decorator_list or fname == 'from_atom')]
             dest = os.path.join(tmp, modname + '.v')
             os.makedirs(os.path.join(tmp, os.path.dirname(rel)), exist_ok=True)
             def translate():
@@ -1633,7 +1637,7 @@ def translator_sensitivity(ck):
 
 
 def run(ck):
-    ck.trusted += ['translators tools/gen_smarts.py, tools/gen_tokens.py, tools/gen_elements.py, tools/gen_queryparse.py, tools/gen_queryeq.py, tools/gen_labels.py (Python ast)',
+    ck.trusted += ['translators tools/gen_smarts.py, tools/gen_tokens.py, tools/gen_elements.py, tools/gen_queryparse.py, tools/gen_queryeq.py, tools/gen_labels.py, tools/gen_qbondeq.py, tools/gen_fromatom.py (Python ast)',
                    'correspondence runner harness/checks/C08.py + harness/coqcases.py', 'CachedMethods shim harness/boot.py', 'CPython 3.12.1',
                    'RDKit 2026.3 and the Python reference oracles of harness/checks/C08.py (search only)']
     ck.assumptions += ['the comparison methods, calc_labels, the class dispatch / setters of smarts() and _tokenize are hand-modelled '
@@ -1650,7 +1654,7 @@ def run(ck):
                         '_tokenize; every bond text of length <= 4 over 9 characters. search: generated SMARTS and one-character mutations (exception class, '
                         'denotation of linear patterns), canonical bracket bodies read by an independent regular expression, every primitive on corpus atoms '
                         'against RDKit attributes. non-trivial = a match / an accepted input')
-    proved = common.standard_proof_steps(ck, translators=['smarts', 'tokens', 'elements', 'queryparse', 'queryeq', 'labels'], extra_targets=['model/SmartsFull.vo'])
+    proved = common.standard_proof_steps(ck, translators=['smarts', 'tokens', 'elements', 'queryparse', 'queryeq', 'labels', 'qbondeq', 'fromatom'], extra_targets=['model/SmartsFull.vo'])
     tied = True
     import time
     timing = {}
